@@ -16,4 +16,6 @@ for m in /verif/mutants/*${1}*.diff; do
     echo "MISSED $(basename $m) (rc=$rc)"; echo "$out" | tail -3; fail=1
   fi
 done
+# the runs above were made on changed trees: put the evidence files of the unchanged tree back
+git -C /verif checkout -- evidence 2>/dev/null
 exit $fail
